@@ -10,31 +10,36 @@ The clause is FALSE on part of the documented domain `(0, 2)` (findings F9, F10)
    `|Pow(b,e) − b^e| ≤ max(1,b)^⌊e⌋ · 10^-8`.
    * `pow_accuracy_mid_le_one`: for `0.5 ≤ b ≤ 1` this is the documented ABSOLUTE `10^-8`, for all exponents up to `10^8`
      (the callers' weight ratios are below `2^20`).
-   * `pow_accuracy_mid_ge_one`: for `1 ≤ b ≤ 1.5`, exponents up to 200: `|Pow(b,e) − b^e| ≤ b^⌊e⌋·10^-8 ≤ b^e·10^-8`
-     (RELATIVE `10^-8`).  The absolute `10^-8` is FALSE there: `pow_abs_precision_fails_above_one_witness`
-     (`Pow(1.5, 3.25)` is off by `1.06·10^-8`) — the product `integerPow·fractionalPow` scales the series error by `b^⌊e⌋`.
+   * `pow_accuracy_upper` (FULL; extends the interval to `1 ≤ b ≤ 1.99`, exponents up to 100):
+     `|Pow(b,e) − b^e| ≤ b^⌊e⌋·10^-8 ≤ b^e·10^-8` (RELATIVE `10^-8`), total.  The absolute `10^-8` is FALSE there:
+     `pow_abs_precision_fails_above_one_witness` (`Pow(1.5, 3.25)` is off by `1.06·10^-8`) — the product
+     `integerPow·fractionalPow` scales the series error by `b^⌊e⌋`.  `pow_accuracy_mid_ge_one`: the same on `[1, 1.5]`
+     for exponents up to 200.
    Ingredients (`Proofs/MathPow*.lean`): (a) Mathlib's binomial series `Real.one_add_rpow_hasFPowerSeriesOnBall_zero`
-   and a GEOMETRIC remainder: after the stopping rule `term < 10^-8` the remainder is at most
-   `term·(n/(n+1))·q/(1−q)` for `|b − 1| ≤ q` — below the last term iff `q ≤ 1/2`: exactly the "INCORRECT assumption"
-   of the code comment, correct on `[0.5, 1.5]`; (b) the iteration bound: at most 27 iterations on `[0.5, 1.5]`
-   (`|C(a,k)·x^k| ≤ 2^-k`), the three roundings per iteration do NOT accumulate in the term (error fixed point
-   `4·10^-18`) and add at most `27·4·10^-18` to the sum: `PowApprox` is within `0.9643·10^-8`; (c) `Power(n)` is within
+   and two remainder bounds after the stopping rule `term < 10^-8`: GEOMETRIC `term·(n/(n+1))·q/(1−q)` for
+   `|b − 1| ≤ q` (any sign; below the last term iff `q ≤ 1/2`: exactly the "INCORRECT assumption" of the code comment,
+   correct on `[0.5, 1.5]`) and ALTERNATING `term·(n/(n+1))·q` for `b ≥ 1` (every `q < 1`); (b) the iteration bound:
+   at most 27 iterations on `[0.5, 1.5]`, 1840 on `[1, 1.99]` (`|C(a,k)·x^k| ≤ q^k`); the three roundings per iteration do
+   NOT accumulate in the term (error fixed point `(2·mulErr + quoErr)/(1−q)`) and add at most `N` times that to the sum:
+   `PowApprox` is within `0.9643·10^-8` resp. `0.9896·10^-8`; (c) `Power(n)` is within
    `max(1,b)^n·((1+½·10^-18)^n − 1)`; `ApproxSqrt` within `5·10^-18` (Newton's error at least halves per round, 300 rounds).
-2. `powApprox_accuracy_general` (FULL): the same analysis for ANY radius `q < 1`: if `|b − 1| ≤ q`, `q^N + D < 10^-8`,
-   `N + 1 < 150000`, then `PowApprox` returns within `powApproxEps q N D ≈ 10^-8·(N/(N+1))·q/(1−q)`;
-   `powApprox_accuracy_wide`: on `[0.1, 1.9]` at most 175 iterations, error `≤ 9·10^-8` (not `10^-8`: F9).
+2. `powApprox_accuracy_general` (FULL): the same analysis for ANY radius `q < 1` and either sign: if `|b − 1| ≤ q`,
+   `q^N + D < 10^-8`, `N + 1 < 150000`, then `PowApprox` returns within
+   `powApproxEps q N D ≈ 10^-8·(N/(N+1))·q/(1−q)`; `powApprox_accuracy_wide`: on `[0.1, 1.9]` at most 175 iterations,
+   error `≤ 9·10^-8` (not `10^-8`: F9).
 3. Frontier witnesses: `pow_accuracy_fails_below_witness` (`Pow(0.4718, 0.1)` and `Pow(0.4631, 0.25)` are off by more
-   than `10^-8`; by the 700-digit reference search the true frontier of the `10^-8` claim for fractional exponents is
-   `b ≈ 0.4737`: the proved interval `[0.5, 1.5]` stops 0.026 short of it on the low side; on the high side the bound
-   `max(1,b)^⌊e⌋·10^-8` holds experimentally up to the F10 region `b ≥ 1.9999`).
+   than `10^-8`; by the 80-digit reference search the true frontier of the `10^-8` claim for fractional exponents is
+   `b ≈ 0.4737`: the proved interval stops 0.026 short of it on the low side).
    `pow_panics_near_two_witness` (F10 side): `Pow(1.999999999999999999, 0.02) = none` — an in-domain PANIC, proved
    ANALYTICALLY (150000 iterations are out of reach of kernel evaluation: `decide +kernel` times out): every true term
    `(a/k)·Π_{i<k}(1 − a/i)·x^k` stays above `9·10^-8` up to the iteration limit (`H_k ≤ 1 + ln k`), the computed terms
-   are within `10^-12` of them, so the stopping rule never fires (`Proofs/MathPowPanic`).
+   are within `10^-12` of them, so the stopping rule never fires (`Proofs/MathPowPanic`);
+   `powApprox_panics_of_slow_series`: the criterion for any input.
 NOT PROVED: F10's own witness exponent 0.34 (the same argument needs `Π_{i<k}(1 − 1.34/i) ≳ k^-1.34/Γ`, a Gamma-function
 bound, instead of the Weierstrass product inequality; it stays a keyed known finding decided by the engine), the
-interval `(0.4737, 0.5)`, and `1.5 < b < 1.9999` at the `b^⌊e⌋·10^-8` level (needs the ALTERNATING remainder bound
-instead of the geometric one; the proved bound there is `powApprox_accuracy_wide`).
+interval `(0.4737, 0.5)` (the geometric bound is not sharp enough: it ignores the decay of `(k − a)/(k + 1)`), and
+`1.99 < b < 1.9999…` (true by the same alternating argument while the series needs fewer than 150000 terms, but the
+per-iteration rounding budget `N·(2·mulErr + quoErr)/(1 − q)` then exceeds the slack `10^-8·(1 − q)`).
 -/
 import OsmoVerif.Proofs.MathPowMid
 import OsmoVerif.Proofs.MathPowPanic
@@ -92,9 +97,44 @@ theorem pow_accuracy_mid_ge_one {b e : Int} (hb1 : P18 ≤ b) (hb2 : b ≤ 15 * 
   rw [← Real.rpow_natCast]
   exact Real.rpow_le_rpow_of_exponent_le hB (Nat.floor_le hE0)
 
-/-- the oracle's tolerance `10^-8·(1 + b^e)` (engine `math`, `gammmath`) is a THEOREM on `[0.5, 1.5]`. -/
-theorem pow_accuracy_mid_oracle_form {b e : Int} (hb1 : 5 * 10 ^ 17 ≤ b) (hb2 : b ≤ 15 * 10 ^ 17) (he0 : 0 ≤ e)
-    (he1 : e ≤ 200 * P18) :
+/-- FULL. Bases in `[1, 1.99]` (ALTERNATING series: remainder below the first omitted term for every `b < 2`),
+exponents up to 100: `Pow` never fails and `|Pow(b,e) − b^e| ≤ b^⌊e⌋·10^-8 ≤ b^e·10^-8`. -/
+theorem pow_accuracy_upper {b e : Int} (hb1 : P18 ≤ b) (hb2 : b ≤ 199 * 10 ^ 16) (he0 : 0 ≤ e)
+    (he1 : e ≤ 100 * P18) :
+    ∃ r, pow b e = some r ∧ |dv r - dv b ^ dv e| ≤ dv b ^ ⌊dv e⌋₊ / 10 ^ 8 ∧
+      |dv r - dv b ^ dv e| ≤ dv b ^ dv e / 10 ^ 8 := by
+  have hB : 1 ≤ dv b := by have := dv_le hb1; rwa [dv_P18] at this
+  have hB2 : dv b ≤ 199 / 100 := by
+    have := dv_le hb2; unfold dv at this ⊢; push_cast at this
+    linarith only [this, show ((199 : ℝ) * 10 ^ 16) / 10 ^ 18 = 199 / 100 by norm_num]
+  have hm : max 1 (dv b) = dv b := max_eq_right hB
+  have hE0 : 0 ≤ dv e := dv_nonneg he0
+  have hE : dv e ≤ 100 := by
+    have := dv_le he1; rw [dv_P18_mul] at this; push_cast at this; exact this
+  have hfl : ⌊dv e⌋₊ ≤ 100 := by
+    have : ⌊dv e⌋₊ ≤ ⌊(100 : ℝ)⌋₊ := Nat.floor_le_floor hE
+    simpa using this
+  have hbig : dv b ^ ⌊dv e⌋₊ ≤ 10 ^ 38 := by
+    calc dv b ^ ⌊dv e⌋₊ ≤ dv b ^ 100 := pow_le_pow_right₀ hB hfl
+      _ ≤ (199 / 100) ^ 100 := pow_le_pow_left₀ (by linarith only [hB]) hB2 100
+      _ ≤ 10 ^ 38 := by norm_num
+  obtain ⟨r, hr, h⟩ := pow_upper_spec hb1 hb2 he0 he1 (by rw [hm]; exact hbig)
+  rw [hm] at h
+  refine ⟨r, hr, h, h.trans ?_⟩
+  apply div_le_div_of_nonneg_right _ (by positivity)
+  rw [← Real.rpow_natCast]
+  exact Real.rpow_le_rpow_of_exponent_le hB (Nat.floor_le hE0)
+
+/-- FULL. The fractional power alone on `[1, 1.99]`: `PowApprox` returns (at most 1840 iterations) within
+`0.9896·10^-8` — the documented precision, absolute. -/
+theorem powApprox_accuracy_upper {b a : Int} (hb1 : P18 ≤ b) (hb2 : b ≤ 199 * 10 ^ 16) (ha0 : 0 < a)
+    (ha1 : a < P18) :
+    ∃ r, powApprox b a Osmomath.powPrecision = some r ∧ |dv r - dv b ^ dv a| ≤ 9896 / 10 ^ 12 :=
+  powApprox_upper_all hb1 hb2 ha0 ha1
+
+/-- the oracle's tolerance `10^-8·(1 + b^e)` (engines `math`, `gammmath`) is a THEOREM on `[0.5, 1.99]`. -/
+theorem pow_accuracy_mid_oracle_form {b e : Int} (hb1 : 5 * 10 ^ 17 ≤ b) (hb2 : b ≤ 199 * 10 ^ 16) (he0 : 0 ≤ e)
+    (he1 : e ≤ 100 * P18) :
     ∃ r, pow b e = some r ∧ |dv r - dv b ^ dv e| ≤ (1 + dv b ^ dv e) / 10 ^ 8 := by
   have := P18_val
   have hpos : 0 ≤ dv b ^ dv e := Real.rpow_nonneg (dv_nonneg (by omega)) _
@@ -102,7 +142,7 @@ theorem pow_accuracy_mid_oracle_form {b e : Int} (hb1 : 5 * 10 ^ 17 ≤ b) (hb2 
   · obtain ⟨r, hr, hacc⟩ := pow_accuracy_mid_le_one hb1 (by omega) he0 (by omega)
     refine ⟨r, hr, hacc.trans ?_⟩
     apply div_le_div_of_nonneg_right _ (by positivity); linarith only [hpos]
-  · obtain ⟨r, hr, _, hacc⟩ := pow_accuracy_mid_ge_one h hb2 he0 he1
+  · obtain ⟨r, hr, _, hacc⟩ := pow_accuracy_upper h hb2 he0 he1
     refine ⟨r, hr, hacc.trans ?_⟩
     apply div_le_div_of_nonneg_right _ (by positivity); linarith only [hpos]
 
@@ -222,6 +262,12 @@ example : ∃ r, pow 1500000000000000000 3250000000000000000 = some r ∧
     |dv r - dv 1500000000000000000 ^ dv 3250000000000000000| ≤
       dv 1500000000000000000 ^ ⌊dv 3250000000000000000⌋₊ / 10 ^ 8 := by
   obtain ⟨r, h1, h2, _⟩ := pow_accuracy_mid_ge_one (b := 1500000000000000000) (e := 3250000000000000000)
+    (by decide) (by decide) (by decide) (by decide)
+  exact ⟨r, h1, h2⟩
+example : pow 1990000000000000000 2340000000000000000 = some 5003987319688884151 := by decide +kernel
+example : ∃ r, pow 1990000000000000000 2340000000000000000 = some r ∧
+    |dv r - dv 1990000000000000000 ^ dv 2340000000000000000| ≤ dv 1990000000000000000 ^ dv 2340000000000000000 / 10 ^ 8 := by
+  obtain ⟨r, h1, _, h2⟩ := pow_accuracy_upper (b := 1990000000000000000) (e := 2340000000000000000)
     (by decide) (by decide) (by decide) (by decide)
   exact ⟨r, h1, h2⟩
 example : ∃ r, powApprox 150000000000000000 300000000000000000 Osmomath.powPrecision = some r ∧
